@@ -24,6 +24,7 @@ var hPalette = []hTok{
 	{"1px", css_lexer.TDimension, 1, 0, 1},
 	{"2px", css_lexer.TDimension, 1, 0, 2},
 	{"3vw", css_lexer.TDimension, 1, 1, 3},
+	{"inherit", css_lexer.TIdent, 0, 0, 7}, // a single-token value the trackers cannot fold
 	{"0", css_lexer.TNumber, 0, 0, 0},
 	{"auto", css_lexer.TIdent, 0, 0, 4},
 	{"4vh", css_lexer.TDimension, 1, 2, 5},
@@ -197,7 +198,7 @@ func hReadDecls(rules []css_ast.Rule) ([]hDecl, bool) {
 
 func hRender(ds []hDecl) string {
 	s := ""
-	names := []string{"0", "1px", "2px", "3vw", "auto", "4vh", "5%"}
+	names := []string{"0", "1px", "2px", "3vw", "auto", "4vh", "5%", "inherit"}
 	for _, d := range ds {
 		s += hKeys[d.key].text + ":"
 		for i, t := range d.toks {
